@@ -124,7 +124,8 @@ def ensure_facts(repo="/repo", mode="libs", verbose=True):
             cmd.append("--all-targets")
         r = subprocess.run(cmd, cwd=repo, env=env, stdout=subprocess.PIPE, stderr=subprocess.STDOUT, text=True)
         if r.returncode != 0:
-            sys.stderr.write(r.stdout[-6000:])
+            if verbose:
+                sys.stderr.write(r.stdout[-6000:])
             raise SystemExit("EXTRACTION FAILED: /repo does not type-check under cargo +nightly check")
         missing = [c for c in required(mode) if not os.path.exists(os.path.join(fdir, c + ".json"))]
         if missing:
